@@ -289,6 +289,8 @@ func hasTier(h HarnessSpec, tier string) bool {
 
 func configureEngine() {
 	interp.InitAllow = []string{"metacontroller/"}
+	// generated clientset/informer packages build REST codecs in their initialisers
+	interp.InitDeny = []string{"metacontroller/pkg/client/generated/"}
 	interp.InitAllowExact = map[string]bool{
 		"k8s.io/client-go/util/retry": true,
 	}
